@@ -179,6 +179,11 @@ func (r *Report) Finish() int {
 	if len(samples) == 0 {
 		samples = append(samples, map[string]string{"note": "no nontrivial obligation"})
 	}
+	if dump := os.Getenv("GNARKLINT_DUMP"); dump != "" {
+		if b, err := json.MarshalIndent(r.Obls, "", " "); err == nil {
+			os.WriteFile(dump, b, 0o644)
+		}
+	}
 	// replay files
 	replayDir := filepath.Join(verifDir, "evidence", "replay")
 	os.MkdirAll(replayDir, 0o755)
